@@ -2748,10 +2748,15 @@ class Parameters:
         param_values = self_.values()
         params = {name: param_values[name] for name in param_names}
         self_._TRIGGER = True
-        self_.update(dict(params, **triggers))
-        self_._TRIGGER = False
-        self_._events += events
-        self_._state_watchers += watchers
+        try:
+            self_.update(dict(params, **triggers))
+        finally:
+            self_._TRIGGER = False
+            self_._events += events
+            self_._state_watchers += [
+                w for w in watchers
+                if not any(w is sw for sw in self_._state_watchers)
+            ]
 
     def _update_event_type(self_, watcher, event, triggered):
         """Return an updated Event object with the type field set appropriately."""
